@@ -340,10 +340,12 @@ func init() {
 		c.Rep.Bounds["queries"] = len(qs)
 		ws := []core.Window{core.Instant(45000), core.Range(10000, 30000, 12), core.Range(0, 45000, 21)}
 		type dsn struct {
-			name string
-			data []core.SeriesSpec
+			name  string
+			data  []core.SeriesSpec
+			ndist int
 		}
-		dss := []dsn{{"D2", dataset("D2")}, {"D3", dataset("D3")}, {"extreme", c19Data()}, {"D5", dataset("D5")}}
+		// the last one: the same through a distributed engine over two remote engines
+		dss := []dsn{{"D2", dataset("D2"), 0}, {"D3", dataset("D3"), 0}, {"extreme", c19Data(), 0}, {"D5", dataset("D5"), 0}, {"D1 distributed", dataset("D1"), 2}}
 		for _, q := range qs {
 			for _, d := range dss {
 				for _, w := range ws {
@@ -356,6 +358,9 @@ func init() {
 					}
 					// the storage shares its label slices between calls, as a TSDB head does
 					cs := &core.Case{Q: q, Data: d.data, W: w, O: core.Opts{Optimizers: "none"}, Note: d.name, ShareLabels: true}
+					if d.ndist > 0 {
+						cs.NDist, cs.Dist, cs.ShareLabels = d.ndist, []int{0, 1, 0, 1, 0, 1, 0, 1}, false
+					}
 					if !c.Progress(cs) {
 						continue
 					}
